@@ -458,7 +458,8 @@ func classify(ps []GPos) string {
 		if strings.Contains(p.Funcs, "(*Casper).tryRollback") && (p.State == "chan receive" || p.State == "chan send") {
 			inRollback = true
 		}
-		if p.Proc == "bp" && strings.HasPrefix(p.State, "sync.RWMutex.") && strings.Contains(p.Funcs, "(*Casper).") {
+		// (RWMutex.Lock queues on its inner mutex first: the dump then says sync.Mutex.Lock)
+		if p.Proc == "bp" && (strings.HasPrefix(p.State, "sync.RWMutex.") || p.State == "sync.Mutex.Lock" || p.State == "semacquire") && strings.Contains(p.Funcs, "(*Casper).") {
 			bpOnCasperLock = true
 		}
 	}
